@@ -120,6 +120,21 @@ package escape
 //@   ensures edges_kept: edgesKept(g)
 //@   ensures closure_kept: forall x *Node, y *Node :: old(edge(g, x, y) && g.status[y] >= g.status[x]) ==> g.status[y] >= g.status[x]
 
+// Edges lists edges of g: every element is an edge of g (and starts at src when src
+// is given); nothing is modified.
+//@ func EscapeGraph.Edges
+//@   property C15
+//@   option append_both
+//@   requires g != nil
+//@   ensures elems: forall k int :: 0 <= k && k < len(result) ==> result[k] != nil && edge(g, result[k].src, result[k].dest)
+//@   modifies nothing
+//@   loop 1 invariant inv1: isfresh(edges) && (forall k int :: 0 <= k && k < len(edges) ==> edges[k] != nil && allocated(edges[k]) && edge(g, edges[k].src, edges[k].dest))
+//@   loop 2 invariant inv2: isfresh(edges) && (forall k int :: 0 <= k && k < len(edges) ==> edges[k] != nil && allocated(edges[k]) && edge(g, edges[k].src, edges[k].dest))
+//@   loop 3 invariant inv3: isfresh(edges) && (forall k int :: 0 <= k && k < len(edges) ==> edges[k] != nil && allocated(edges[k]) && edge(g, edges[k].src, edges[k].dest)) && has(g.edges, s) && outEdges == g.edges[s]
+//@   loop 1 invariant fr1: preserved(all)
+//@   loop 2 invariant fr2: preserved(all)
+//@   loop 3 invariant fr3: preserved(all)
+
 // MergeNodeStatus raises the status of n to at least s and never lowers any status.
 //@ func EscapeGraph.MergeNodeStatus
 //@   property C15
